@@ -164,3 +164,148 @@ impl WriteBackend for MockBackend {
         self.res(OP_REMOVE)
     }
 }
+
+// ---------------------------------------------------------------------------------------------
+// A recording mock that implements the full decrypt stack (DecryptFullBackend) on top of the same
+// event log; used as the inner backend of DryRunBackend.
+use crate::backend::decrypt::{DecryptReadBackend, DecryptWriteBackend};
+use crate::crypto::CryptoKey;
+
+pub(crate) const OP_HASH_WRITE_FULL: u64 = 11;
+pub(crate) const OP_SET_ZSTD: u64 = 12;
+pub(crate) const OP_SET_EXTRA_VERIFY: u64 = 13;
+pub(crate) const OP_DECRYPT: u64 = 14;
+pub(crate) const OP_PROCESS_DATA: u64 = 15;
+
+/// A key whose "encryption" is the identity framed by one marker byte (0xEE) in front; decryption
+/// fails unless the marker is present.  Stands for an arbitrary AEAD in framing proofs.
+#[derive(Clone, Copy, Debug)]
+pub(crate) struct MockKey {
+    pub(crate) fail_encrypt: bool,
+    pub(crate) fail_decrypt: bool,
+}
+
+impl CryptoKey for MockKey {
+    fn decrypt_data(&self, data: &[u8]) -> RusticResult<Vec<u8>> {
+        if self.fail_decrypt || data.first() != Some(&0xEE) {
+            return Err(RusticError::new(ErrorKind::Cryptography, "mock: MAC mismatch"));
+        }
+        Ok(data[1..].to_vec())
+    }
+    fn encrypt_data(&self, data: &[u8]) -> RusticResult<Vec<u8>> {
+        if self.fail_encrypt {
+            return Err(RusticError::new(ErrorKind::Cryptography, "mock: encrypt failed"));
+        }
+        let mut v = Vec::with_capacity(data.len() + 1);
+        v.push(0xEE);
+        v.extend_from_slice(data);
+        Ok(v)
+    }
+}
+
+#[derive(Clone, Debug)]
+pub(crate) struct MockDecryptFull {
+    pub(crate) fail: u16,
+    pub(crate) key: MockKey,
+    pub(crate) log: Arc<Log>,
+}
+
+impl MockDecryptFull {
+    pub(crate) fn new(fail: u16, log: Arc<Log>) -> Self {
+        Self { fail, key: MockKey { fail_encrypt: false, fail_decrypt: false }, log }
+    }
+    pub(crate) fn fails(&self, op: u64) -> bool {
+        self.fail & (1 << op) != 0
+    }
+    fn res(&self, op: u64) -> RusticResult<()> {
+        if self.fails(op) {
+            Err(RusticError::new(ErrorKind::Backend, "mock failure"))
+        } else {
+            Ok(())
+        }
+    }
+}
+
+impl ReadBackend for MockDecryptFull {
+    fn location(&self) -> String {
+        self.log.push(event(0, OP_LOCATION, 0, false, 0, 0, 0, 0, 0));
+        String::new()
+    }
+    fn list_with_size(&self, tpe: FileType) -> RusticResult<Vec<(Id, u32)>> {
+        self.log.push(event(0, OP_LIST, tpe_code(tpe), false, 0, 0, 0, 0, 0));
+        self.res(OP_LIST)?;
+        Ok(Vec::new())
+    }
+    fn read_full(&self, tpe: FileType, id: &Id) -> RusticResult<Bytes> {
+        self.log.push(event(0, OP_READ_FULL, tpe_code(tpe), false, id_tag(id), 0, 0, 0, 0));
+        self.res(OP_READ_FULL)?;
+        Ok(Bytes::from_static(&STORE_TAG[0]))
+    }
+    fn read_partial(&self, tpe: FileType, id: &Id, cacheable: bool, offset: u32, length: u32) -> RusticResult<Bytes> {
+        self.log.push(event(0, OP_READ_PARTIAL, tpe_code(tpe), cacheable, id_tag(id), 0, 0, u64::from(offset), u64::from(length)));
+        self.res(OP_READ_PARTIAL)?;
+        Ok(Bytes::from_static(&STORE_TAG[0]))
+    }
+    fn needs_warm_up(&self) -> bool {
+        self.log.push(event(0, OP_NEEDS_WARM_UP, 0, false, 0, 0, 0, 0, 0));
+        false
+    }
+    fn warmup_path(&self, tpe: FileType, id: &Id) -> String {
+        self.log.push(event(0, OP_WARMUP_PATH, tpe_code(tpe), false, id_tag(id), 0, 0, 0, 0));
+        String::new()
+    }
+}
+
+impl WriteBackend for MockDecryptFull {
+    fn create(&self) -> RusticResult<()> {
+        self.log.push(event(0, OP_CREATE, 0, false, 0, 0, 0, 0, 0));
+        self.res(OP_CREATE)
+    }
+    fn write_bytes(&self, tpe: FileType, id: &Id, cacheable: bool, content: BytesList) -> RusticResult<()> {
+        let clen = content.size() as u64;
+        let c0 = content.slice().first().and_then(|b| b.first().copied()).unwrap_or(0);
+        core::mem::forget(content);
+        self.log.push(event(0, OP_WRITE, tpe_code(tpe), cacheable, id_tag(id), clen, c0, 0, 0));
+        self.res(OP_WRITE)
+    }
+    fn remove(&self, tpe: FileType, id: &Id, cacheable: bool) -> RusticResult<()> {
+        self.log.push(event(0, OP_REMOVE, tpe_code(tpe), cacheable, id_tag(id), 0, 0, 0, 0));
+        self.res(OP_REMOVE)
+    }
+}
+
+impl DecryptReadBackend for MockDecryptFull {
+    fn decrypt(&self, data: &[u8]) -> RusticResult<Vec<u8>> {
+        self.log.push(event(0, OP_DECRYPT, 0, false, 0, data.len() as u64, data.first().copied().unwrap_or(0), 0, 0));
+        self.res(OP_DECRYPT)?;
+        Ok(Vec::new())
+    }
+    fn read_encrypted_full(&self, tpe: FileType, id: &Id) -> RusticResult<Bytes> {
+        self.read_full(tpe, id)
+    }
+}
+
+impl DecryptWriteBackend for MockDecryptFull {
+    type Key = MockKey;
+    fn key(&self) -> &Self::Key {
+        &self.key
+    }
+    fn hash_write_full(&self, tpe: FileType, data: &[u8]) -> RusticResult<Id> {
+        self.log.push(event(0, OP_HASH_WRITE_FULL, tpe_code(tpe), false, 0, data.len() as u64, data.first().copied().unwrap_or(0), 0, 0));
+        self.res(OP_HASH_WRITE_FULL)?;
+        let mut b = [0u8; 32];
+        b[0] = 0xAB;
+        Ok(Id::new(b))
+    }
+    fn process_data(&self, data: &[u8]) -> RusticResult<(Vec<u8>, u32, Option<std::num::NonZeroU32>)> {
+        self.log.push(event(0, OP_PROCESS_DATA, 0, false, 0, data.len() as u64, data.first().copied().unwrap_or(0), 0, 0));
+        self.res(OP_PROCESS_DATA)?;
+        Ok((Vec::new(), 0, None))
+    }
+    fn set_zstd(&mut self, zstd: Option<i32>) {
+        self.log.push(event(0, OP_SET_ZSTD, 0, zstd.is_some(), 0, 0, 0, 0, 0));
+    }
+    fn set_extra_verify(&mut self, extra_check: bool) {
+        self.log.push(event(0, OP_SET_EXTRA_VERIFY, 0, extra_check, 0, 0, 0, 0, 0));
+    }
+}
